@@ -162,20 +162,28 @@ static int scenarioX25519(long k)
     return bad;
 }
 
-int main(void)
+#define WANT(c) (argc < 2 || strchr(argv[1], (c)))
+int main(int argc, char **argv)
 {
     long n;
     int bad = 0, b;
     setvbuf(stdout, NULL, _IOLBF, 0);
+    if (WANT('A')) {
+    b = 0;
     printf("demo1 case A, control: a 256-byte ffdhe2048 share of 0x7f bytes (import succeeds)\n");
-    bad += dc_run_forked("TLS 1.3 server, well-sized ffdhe2048 key share", scenarioDh, 256, 256);
+    b += dc_run_forked("TLS 1.3 server, well-sized ffdhe2048 key share", scenarioDh, 256, 256);
     printf("demo1 case A, attack: a 4000-byte ffdhe2048 share (pstm refuses the allocation: PS_MEM_FAIL)\n");
-    bad += dc_run_forked("TLS 1.3 server torn down after an oversized ffdhe2048 key share", scenarioDh, 4000, 4000);
-
+    b += dc_run_forked("TLS 1.3 server torn down after an oversized ffdhe2048 key share", scenarioDh, 4000, 4000);
+    if (!b) printf("OK: demo1 case A: the failed key share import left nothing behind that teardown trips over\n");
+    bad += b;
+    }
+    if (WANT('B')) {
     n = dc_count(scenarioX25519);
     printf("demo1 case B: TLS 1.3 / x25519 handshake makes %ld allocations; failing each one in turn\n", n);
     b = dc_run_forked("TLS 1.3 handshake with an x25519 key share", scenarioX25519, 1, n);
     printf("demo1 case B: %d of %ld single faults ended in a crash instead of an error return / alert\n", b, n);
+    if (!b) printf("OK: demo1 case B: every single fault ended in an error return / alert\n");
     bad += b;
+    }
     return bad ? 1 : 0;
 }
